@@ -510,14 +510,39 @@ func c13Export(r *rand.Rand, idx int) Case {
 		stale = strings.Repeat("stale: [\"left over from an earlier, longer export\", 1, 2, 3]\n", 30)
 		_ = os.WriteFile(file, []byte(stale), 0o644)
 	}
-	op := &pipeline.ExportOp{File: &pipeline.ValOrRef{Val: file}, Format: pipeline.OutputFormat(format)}
+	// file and path are given immediately or as references to leaves of the data; the op runs
+	// directly or as the body of a forEach (which executes a clone of it per item)
+	via := r.Intn(4)
+	mkVal := func(imm, ref string) *pipeline.ValOrRef {
+		if via%2 == 1 {
+			var v pipeline.ValOrRef
+			if yaml.Unmarshal([]byte("{ref: "+ref+"}"), &v) == nil {
+				return &v
+			}
+		}
+		return &pipeline.ValOrRef{Val: imm}
+	}
+	if via%2 == 1 {
+		refs := map[string]any{"file": file}
+		if pathp != nil {
+			refs["path"] = *pathp
+		}
+		data["refs"] = refs
+	}
+	op := &pipeline.ExportOp{File: mkVal(file, "refs.file"), Format: pipeline.OutputFormat(format)}
 	if pathp != nil {
-		op.Path = &pipeline.ValOrRef{Val: *pathp}
+		op.Path = mkVal(*pathp, "refs.path")
+	}
+	var act pipeline.Action = op
+	if via >= 2 && pathp != nil { // (a whole-document export from inside a forEach would contain the loop variable)
+		body := pipeline.ActionSpec{}
+		body.Operations.Export = op
+		act = &pipeline.ForEachOp{Item: &pipeline.ValOrRefSlice{&pipeline.ValOrRef{Val: "one"}}, Action: body}
 	}
 	d := anyToContainer(data)
 	var err error
 	var fail []string
-	if pn := guard(func() { err = pipeline.New(pipeline.WithData(d)).Execute(op) }); pn != "" {
+	if pn := guard(func() { err = pipeline.New(pipeline.WithData(d)).Execute(act) }); pn != "" {
 		fail = append(fail, "Export failed abruptly (panic): "+pn)
 	}
 	if !reflect.DeepEqual(nodeToAny(d), any(data)) {
@@ -676,6 +701,61 @@ func c13Env(r *rand.Rand, idx int) Case {
 	}
 	if !reflect.DeepEqual(gm, want) {
 		fail = append(fail, fmt.Sprintf("env stored %v under %s, expected exactly %v", gm, envPath, want))
+	}
+	// the selection is by variable NAME, whatever the pattern's anchoring and whatever the values spell:
+	// two more variables whose values mention the names, an unanchored and an end-anchored pattern
+	{
+		mention := pfx + "ZV"
+		os.Setenv(mention, "-D"+pfx+"A=on "+pfx+"Q")
+		os.Setenv(pfx+"Q", "plain")
+		defer os.Unsetenv(mention)
+		defer os.Unsetenv(pfx + "Q")
+		all := map[string]string{mention: "-D" + pfx + "A=on " + pfx + "Q", pfx + "Q": "plain"}
+		for k, v := range vars {
+			all[k] = v
+		}
+		type pat struct {
+			incl, excl string
+			keep       func(name string) bool
+		}
+		pats := []pat{
+			{regexp.QuoteMeta(pfx) + "A", "", func(n string) bool { return strings.Contains(n, pfx+"A") }},
+			{regexp.QuoteMeta(pfx), regexp.QuoteMeta(pfx) + "Q", func(n string) bool { return strings.Contains(n, pfx) && !strings.Contains(n, pfx+"Q") }},
+			{regexp.QuoteMeta(pfx) + ".*[AQ]$", "", func(n string) bool {
+				return strings.Contains(n, pfx) && (strings.HasSuffix(n, "A") || strings.HasSuffix(n, "Q"))
+			}},
+		}
+		pt := pats[r.Intn(len(pats))]
+		op2 := &pipeline.EnvOp{Include: regexp.MustCompile(pt.incl), Path: "probe"}
+		if pt.excl != "" {
+			op2.Exclude = regexp.MustCompile(pt.excl)
+		}
+		d2 := anyToContainer(map[string]any{})
+		var err2 error
+		if pn := guard(func() { err2 = pipeline.New(pipeline.WithData(d2)).Execute(op2) }); pn != "" || err2 != nil {
+			fail = append(fail, fmt.Sprintf("env op (pattern %q) failed: %v %s", pt.incl, err2, pn))
+		}
+		want2 := map[string]any{}
+		for k, v := range all {
+			if pt.keep(k) {
+				want2[k] = v
+			}
+		}
+		got2, _ := plookup(nodeToAny(d2).(map[string]any), parsePPath("probe.Env"))
+		gm2, _ := got2.(map[string]any)
+		// other processes' variables cannot match: every pattern contains the per-case prefix — except through their values
+		for k := range gm2 {
+			if !strings.Contains(k, pfx) {
+				fail = append(fail, fmt.Sprintf("env stored %s, whose NAME does not match %q", k, pt.incl))
+				delete(gm2, k)
+			}
+		}
+		if gm2 == nil {
+			gm2 = map[string]any{}
+		}
+		if !reflect.DeepEqual(gm2, want2) {
+			fail = append(fail, fmt.Sprintf("env with include %q exclude %q stored %v, expected exactly %v", pt.incl, pt.excl, gm2, want2))
+		}
 	}
 	envList := gList(sortedKeys(vars), func(k string) string { return "(" + gStr(k) + ", " + gStr(vars[k]) + ")" })
 	ce := "None"
